@@ -453,7 +453,7 @@ func writeC05Reads(t *Toks, h *rtp.Header, extra []uint8) {
 
 // observeC05 runs a history on the real Header.  start: either a description (struct literal +
 // element list) or wire bytes decoded with Header.Unmarshal.
-func observeC05(c *Case, desc *PacketIn, wire []byte, ops []c05Op) {
+func observeC05(c *Case, desc *PacketIn, wire []byte, ops []c05Op, prevs ...[]byte) {
 	var h rtp.Header
 	startOk := true
 	if desc != nil {
@@ -461,7 +461,14 @@ func observeC05(c *Case, desc *PacketIn, wire []byte, ops []c05Op) {
 		writeHeaderIn(&c.I, &desc.H, desc.Exts)
 		h = desc.Build().Header
 	} else {
-		c.I.Tok("wire").Bytes(wire)
+		c.I.Tok("wire").BytesList(prevs).Bytes(wire)
+		for _, pv := range prevs {
+			pv := pv
+			try(func() { _, _ = h.Unmarshal(cloneBytes(pv)) })
+		}
+		if len(prevs) > 0 {
+			c.Tag("start=wire-reused")
+		}
 		var err error
 		if try(func() { _, err = h.Unmarshal(cloneBytes(wire)) }) || err != nil {
 			startOk = false
@@ -726,6 +733,16 @@ func genC05(x *Ctx) {
 				}
 			}
 			ops := c05GenOps(r, r.Pick(0, 1, 2, 3, 5, 8, 30, r.Range(0, 30), r.Range(0, 30)), mode)
+			if desc == nil && r.Bool() {
+				// the receiver decoded one or two VALID headers before (a failed decode leaves the
+				// profile field in a state the model does not track)
+				prevs := [][]byte{c02Rich(r)}
+				if r.Bool() {
+					prevs = append(prevs, c02Valid(r, 4))
+				}
+				observeC05(c, desc, wire, ops, prevs...)
+				return
+			}
 			observeC05(c, desc, wire, ops)
 		})
 	}
